@@ -461,19 +461,56 @@ func linesOfType(letter byte) []string {
 	return out
 }
 
+// oddFrom is the index of the first cut-short / unusual line of the dictionary (everything before it is a sound line).
+func oddFrom() int {
+	for i, l := range sdpLines {
+		if l == "a=key-mgmt:mikey" {
+			return i
+		}
+	}
+	return len(sdpLines)
+}
+
+func isOdd(line string) bool {
+	for _, l := range sdpLines[oddFrom():] {
+		if l == line {
+			return true
+		}
+	}
+	return false
+}
+
 // genOrderedSDP follows the line order of RFC 4566 (session part, time descriptions with repeat lines, media blocks), so
 // that the parser's state machine gets past its first lines; each slot holds zero to two lines of its type, whole or
 // cut short.
 func genOrderedSDP(t *rapid.T) []string {
 	var ls []string
+	// at most `budget` lines come from the cut-short / unusual part of the dictionary; the rest are the sound lines, so
+	// that an odd line deep inside a media block is reached with everything before it accepted
+	budget := rapid.SampledFrom([]int{1, 1, 2, 2, 3, 100}).Draw(t, "odd_budget")
 	slot := func(letter byte, maxN int, often bool) {
 		opts := linesOfType(letter)
+		if budget <= 0 {
+			opts = nil
+			for _, l := range sdpLines[:oddFrom()] {
+				if len(l) >= 2 && l[0] == letter && l[1] == '=' {
+					opts = append(opts, l)
+				}
+			}
+			if len(opts) == 0 {
+				return
+			}
+		}
 		n := rapid.IntRange(0, maxN).Draw(t, "slot_"+string(letter))
 		if often && n == 0 && rapid.IntRange(0, 3).Draw(t, "slot_force") != 0 {
 			n = 1
 		}
 		for i := 0; i < n; i++ {
-			ls = append(ls, rapid.SampledFrom(opts).Draw(t, "slotline"))
+			l := rapid.SampledFrom(opts).Draw(t, "slotline")
+			if isOdd(l) {
+				budget--
+			}
+			ls = append(ls, l)
 		}
 	}
 	// the three opening lines are mostly the sound ones: anything else ends the parse at once
@@ -562,8 +599,12 @@ func genSDPText(t *rapid.T) []byte {
 				ls = append(ls, l)
 			}
 		}
+		dict := sdpLines
+		if rapid.Bool().Draw(t, "short_dict") {
+			dict = sdpLines[:oddFrom()+10] // the sound lines and the ten attributes that stop short
+		}
 		for i := 0; i < n; i++ {
-			ls = append(ls, rapid.SampledFrom(sdpLines).Draw(t, "line"))
+			ls = append(ls, rapid.SampledFrom(dict).Draw(t, "line"))
 		}
 		nl := rapid.SampledFrom([]string{"\r\n", "\n"}).Draw(t, "newline")
 		return []byte(strings.Join(ls, nl) + nl)
